@@ -100,8 +100,13 @@ func (s *SuffrageStateBuilder) Build(
 				return lastheight, nil, nil, e.Wrap(err)
 			}
 
+			// NOTE the proofs from buildBatch already has the proof of the last
+			// suffrage height; it should be same with the last proof of remote.
+			if lastproof := ps[len(ps)-1]; !lastproof.State().Hash().Equal(proof.State().Hash()) {
+				return lastheight, nil, nil, e.Errorf("last proof does not match with last proof of remote")
+			}
+
 			proofs = ps
-			proofs = append(proofs, proof)
 		}
 	}
 
@@ -123,7 +128,7 @@ func (s *SuffrageStateBuilder) buildBatch(
 
 	newprev := localstate
 	var previous base.State
-	var proofs []base.SuffrageProof
+	var proofs, batch []base.SuffrageProof
 	var provelock sync.Mutex
 
 	if err := util.BatchWork(
@@ -133,11 +138,14 @@ func (s *SuffrageStateBuilder) buildBatch(
 		func(_ context.Context, last uint64) error {
 			previous = newprev
 
+			// NOTE keeps the proofs of the previous batch
+			proofs = append(proofs, batch...)
+
 			switch r := (last + 1) % uint64(s.batchlimit); {
 			case r == 0:
-				proofs = make([]base.SuffrageProof, s.batchlimit)
+				batch = make([]base.SuffrageProof, s.batchlimit)
 			default:
-				proofs = make([]base.SuffrageProof, r)
+				batch = make([]base.SuffrageProof, r)
 			}
 
 			return nil
@@ -152,13 +160,16 @@ func (s *SuffrageStateBuilder) buildBatch(
 				return err
 			case !found:
 				return util.ErrNotFound.Errorf("suffrage proof not found, %d", height)
+			case proof.SuffrageHeight() != height:
+				return errors.Errorf(
+					"wrong suffrage height of proof; expected %d, but %d", height, proof.SuffrageHeight())
 			}
 
 			return func() error {
 				provelock.Lock()
 				defer provelock.Unlock()
 
-				if err := s.prove(proof, proofs, previous); err != nil {
+				if err := s.prove(proof, batch, previous); err != nil {
 					return err
 				}
 
@@ -173,7 +184,7 @@ func (s *SuffrageStateBuilder) buildBatch(
 		return nil, e.Wrap(err)
 	}
 
-	return proofs, nil
+	return append(proofs, batch...), nil
 }
 
 func (*SuffrageStateBuilder) prove(
@@ -191,13 +202,17 @@ func (*SuffrageStateBuilder) prove(
 	height := proof.SuffrageHeight()
 
 	index := (height - prevheight - 1).Int64()
-	if index >= int64(len(proofs)) {
+	if index < 0 || index >= int64(len(proofs)) {
 		return errors.Errorf("wrong height")
 	}
 
 	proofs[index] = proof
 
 	if index == 0 {
+		if previous == nil && proof.State().Height() != base.GenesisHeight {
+			return errors.Errorf("previous state is required except genesis")
+		}
+
 		if err := proof.Prove(previous); err != nil {
 			return err
 		}
